@@ -34,7 +34,7 @@ RULE = (
     "one evaluation = one simulated run: a program case (binary, VM version, args/witness/cell data, 0-2 extra script groups) is verified "
     "uninterrupted, then under every schedule of the run (kinds: random = 3-30 chunk partitions / budget probes / a few signal schedules; "
     "signals = 3-30 Suspend/Resume/Stop schedules on SimMachine; enumerate = every split point of a window of <=2000 consecutive k of a "
-    "small program; grid = 250 evenly spaced split points of a larger program), each compared with the uninterrupted verdict and cycles. "
+    "small program; grid = ~250 evenly spaced split points of a larger program, 8 interleaved grids per program), each compared with the uninterrupted verdict and cycles. "
     "distinct = distinct hash of (program case, extra groups, every chunk budget, rebuild flag, budget, signal position and command); "
     "non-trivial = at least one schedule of the run was actually interrupted before completion (a chunk returned Suspended, or the VM "
     "paused on a signal)"
@@ -62,8 +62,8 @@ def run(tier, args):
     n_enum = info["enumerate"]["units"]
     n_grid = info["grid"]["units"]
     parts = [
-        ("random_schedules", ["--kind", "random"], 160 if q else 9000, 0),
-        ("signal_schedules", ["--kind", "signals"], 90 if q else 4500, 1),
+        ("random_schedules", ["--kind", "random"], 160 if q else 16000, 0),
+        ("signal_schedules", ["--kind", "signals"], 90 if q else 16000, 1),
         ("enumerated_split_points", ["--kind", "enumerate"], 40 if q else n_enum, 2),
         ("grid_split_points", ["--kind", "grid"], 50 if q else n_grid, 3),
     ]
